@@ -6,7 +6,7 @@ redundant parentheses up to that depth), leaves ranging over truth classes of a 
 atoms; plus the complete atom space on its own, all operator spellings, nested conditionals and
 \\whiledo loops of 0..6 iterations.  Oracle: fold over the generated tree (vp/refs/c19_model.py).
 """
-import re, signal, contextlib
+import os, re, signal, pickle, struct, contextlib, traceback
 from vp import core, state
 from vp.refs import c19_model as M
 
@@ -18,7 +18,10 @@ RULE = ('part T: all trees of the grammar Expr ::= Unary | Expr op Unary, Unary 
         'rotate deterministically over the menus; part A: every atom of the atom space alone and under \\not; part P: every '
         'tree of depth <= 2 x every upper/lower-case assignment x 3 blank styles; part N: nested conditionals in both '
         'branches; part W: \\whiledo over all trees with loop-variant leaves x bound N = 0..6 (tests needing > 6 '
-        'iterations are outside the bound). Blocks = index ranges (disjoint). A case is non-trivial unless its test is a '
+        'iterations are outside the bound), plain body; part B: the same with the four bodies that contain an \\ifthenelse '
+        '(without / with \\( \\)) or an inner \\whiledo (ungrouped / grouped test). Blocks = index ranges (disjoint); each '
+        'block runs in its own process, and a case that is wrong there but right alone is a violation whose replay case '
+        'is the (delta-debugged) list of cases of that process that reproduces it from untouched state. A case is non-trivial unless its test is a '
         'single bare atom in parts T/P; distinct = distinct (part, tree, atoms, spelling); outcomes = distinct '
         '(operator skeleton, leaf truth values, observed text)')
 ASSUMPTIONS = [
@@ -29,11 +32,12 @@ ASSUMPTIONS = [
     'length registers are assigned with the primitive form \\zzL=1in\\relax (plasTeX\'s \\setlength is a no-op, outside the anchor)',
     'visible text is compared with whitespace removed',
     'tree cases marked "session" (quick: the trees of depth exactly 3 over 4 leaf classes; thorough: all trees of depth <= 4 '
-    'over 2 leaf classes) run as consecutive \\ifthenelse of '
-    'one document per block, each observed on its own output fragment; after the evaluator\'s IndexError the input stack is '
-    'cleared and \\( \\) re-enabled, after any other exception or a timeout a new document is started; every candidate '
-    'violation is re-judged in a fresh isolated document.  All other cases (atoms, spellings, nested, loops, trees of depth <= 2 '
-    'quick / <= 3 thorough) get a fresh interpreter with class-level state restored',
+    'over 2 leaf classes) run as consecutive \\ifthenelse of one document per block, each observed on its own output '
+    'fragment; after an exception or a timeout a new document is started.  All other cases get a fresh interpreter with '
+    'class-level state restored (vp.state.reset)',
+    'histories: a process forked from each block process before its first case re-runs, on request, a single case or a '
+    'sub-list of the block\'s earlier cases from untouched state; a history-dependent violation is reported only after '
+    'it was reproduced that way twice, otherwise it is a harness error',
 ]
 
 WS = re.compile(r'\s+')
@@ -45,6 +49,7 @@ PRE_ITEMS = [
     ('zzc', '\\newcounter{zzc}\\setcounter{zzc}{3}'),
     ('zzd', '\\newcounter{zzd}\\setcounter{zzd}{-2}'),
     ('zzw', '\\newcounter{zzw}'),
+    ('zzv', '\\newcounter{zzv}'),
     ('zzL', '\\newlength{\\zzL}\\zzL=1in\\relax '),
     ('zzA', '\\def\\zzA{7}'),
     ('zzN', '\\newcommand{\\zzN}{-2}'),
@@ -75,12 +80,23 @@ def ite_text(v, tag=''):
     return ('wqa%swqt%swqz%swqx' if v else 'wqa%swqe%swqz%swqy') % (tag, tag, tag)
 
 
-def loop_body(test):
-    return '\\setcounter{zzw}{0}wqa\\whiledo{%s}{wqb\\stepcounter{zzw}}wqz\\arabic{zzw}' % test
+# loop bodies (part B): (text, visible text of round c).  0 is the plain body of part W; the others contain a
+# conditional or a loop of their own -- constructs that touch the same class-level "\( \) mean grouping" switch.
+BODIES = [
+    ('wqb', lambda c: 'wqb'),
+    ('\\ifthenelse{\\isodd{\\value{zzw}}}{wqo}{wqv}', lambda c: 'wqo' if c % 2 else 'wqv'),
+    ('\\ifthenelse{\\( \\isodd{\\value{zzw}} \\) \\and \\not \\( 2<1 \\)}{wqo}{wqv}', lambda c: 'wqo' if c % 2 else 'wqv'),
+    ('\\setcounter{zzv}{0}\\whiledo{\\value{zzv}<2}{wqi\\stepcounter{zzv}}', lambda c: 'wqiwqi'),
+    ('\\setcounter{zzv}{0}\\whiledo{\\( \\value{zzv}<2 \\)}{wqi\\stepcounter{zzv}}', lambda c: 'wqiwqi'),
+]
 
 
-def loop_text(k):
-    return 'wqa' + 'wqb' * k + 'wqz%d' % k
+def loop_body(test, kind=0):
+    return ('\\setcounter{zzw}{0}wqa\\whiledo{%s}{%s\\stepcounter{zzw}}wqz\\arabic{zzw}' % (test, BODIES[kind][0]))
+
+
+def loop_text(k, kind=0):
+    return 'wqa' + ''.join(BODIES[kind][1](c) for c in range(k)) + 'wqz%d' % k
 
 
 class HardTimeout(BaseException):
@@ -187,18 +203,8 @@ class Session(object):
             self.tex = None
             return 'timeout'
         except Exception as e:
-            name = type(e).__name__
-            del tex.inputs[:]
-            if name == 'IndexError':
-                # the evaluator's "pop from empty list" is raised after argument parsing, by code without
-                # side effects; \ifthenelse had switched \( \) off and never got to switch them on again
-                from plasTeX.Base.LaTeX.Math import BeginMath, EndMath
-                BeginMath.disableMath = EndMath.disableMath = False
-                if len(tex.ownerDocument.context.contexts) != self.depth:
-                    self.tex = None
-            else:
-                self.tex = None         # anything else: start over (new_tex() restores class-level state)
-            return 'raises:%s' % name
+            self.tex = None             # a real document would have ended here: the next case starts a new one
+            return 'raises:%s' % type(e).__name__
 
 
 # ---------------------------------------------------------------------------
@@ -240,7 +246,7 @@ def predict(case, dev=0):
     tree, atoms, _ = case_test(case)
     toks = M.tokens(tree)
     part = case['part']
-    if part == 'W':
+    if part in 'WB':
         def evaluate(c):
             lv = lambda i: M.atom_value(atoms[i], dev, loopvar=c)
             if dev & (M.D_NOT_INFIX | M.D_WHILE_GROUP):
@@ -251,7 +257,7 @@ def predict(case, dev=0):
             return 'timeout'
         if isinstance(k, tuple):
             return 'raises:IndexError'
-        return loop_text(k)
+        return loop_text(k, case.get('body', 0))
     lv = lambda i: M.atom_value(atoms[i], dev)
     if dev & M.D_NOT_INFIX:
         v = M.machine(toks, lv, dev)
@@ -286,8 +292,8 @@ def nested_text(v, iv):
 def case_source(case, full_preamble=False):
     _, _, test = case_test(case)
     part = case['part']
-    if part == 'W':
-        body = loop_body(test)
+    if part in 'WB':
+        body = loop_body(test, case.get('body', 0))
     elif part == 'N':
         itree, iatoms = totuple(case['inner_tree']), totuple(case['inner_atoms'])
         inner = M.spell(M.tokens(itree), lambda i: M.atom_text(iatoms[i], 0), 0, 0)
@@ -297,7 +303,8 @@ def case_source(case, full_preamble=False):
     return (PRE_ALL if full_preamble else preamble_for(body)) + body
 
 
-APPLICABLE = {'W': (M.D_NOT_INFIX, M.D_WHILE_GROUP, M.D_LEN_FLOAT)}
+_LOOP_DEVS = (M.D_NOT_INFIX, M.D_WHILE_GROUP, M.D_LEN_FLOAT)
+APPLICABLE = {'W': _LOOP_DEVS, 'B': _LOOP_DEVS}
 DEFAULT_APPLICABLE = (M.D_NOT_INFIX, M.D_LEN_FLOAT)
 
 
@@ -326,7 +333,7 @@ def classify(case, obs):
 
 
 def limit_for(case):
-    return 1.0 if case['part'] == 'W' else 20.0
+    return 1.0 if case['part'] in 'WB' else 20.0
 
 
 CONFIRM_LIMIT = 4.0
@@ -342,10 +349,42 @@ def observe_case(case, full_preamble=False):
     return obs
 
 
+# ---------------------------------------------------------------------------
+# histories: what one process did before a case
+# ---------------------------------------------------------------------------
+def run_step(mode, case, session):
+    """Observation of one case in this process: as the next conditional of the running document ('session')
+    or as a fresh document with class-level state restored ('isolated')."""
+    if mode == 'session':
+        return session.run(ite_body(case_test(case)[2]), limit_for(case))
+    return observe_case(case)
+
+
+def run_history(mode, steps):
+    """Observations of `steps` executed in this order in this process."""
+    session = Session() if mode == 'session' else None
+    return [run_step(mode, c, session) for c in steps]
+
+
+def history_source(mode, steps):
+    bodies = [ite_body(case_test(c)[2]) if mode == 'session' else case_source(c) for c in steps]
+    if mode == 'session':
+        return PRE_ALL + '\n'.join(bodies)
+    return '\n%% ---- next document, same process ----\n'.join(bodies)
+
+
 def replay(case):
-    src = case_source(case)
-    obs = observe_case(case)
-    v, fids, exp = classify(case, obs)
+    """run.py calls this in a process forked from the never-used parent, i.e. with no history of its own."""
+    if case['part'] == 'H':
+        steps = case['steps']
+        obs_all = run_history(case['mode'], steps)
+        last, obs = steps[-1], obs_all[-1]
+        src = history_source(case['mode'], steps)
+    else:
+        last = case
+        src = case_source(case)
+        obs = observe_case(case)
+    v, fids, exp = classify(last, obs)
     res = {'verdict': v, 'expected': exp, 'observed': obs, 'input': src, 'detail': ''}
     if v == 'known':
         f = core.Findings()
@@ -354,8 +393,141 @@ def replay(case):
         res['fids'] = fids
         res['detail'] = 'observation equals the oracle with deviation(s) %s switched on' % ', '.join(fids)
     elif v == 'violation':
-        res['detail'] = 'branch / iteration count differs from the value of the expression tree'
+        res['detail'] = VIOLATION_TEXT if case['part'] != 'H' else HISTORY_TEXT % (len(case['steps']) - 1)
     return res
+
+
+VIOLATION_TEXT = 'branch / iteration count differs from the value of the expression tree'
+HISTORY_TEXT = ('the last test evaluates wrongly after the %d preceding one(s) were processed in the same process, although it '
+                'evaluates correctly on its own: the value of a test depends on what was evaluated before')
+
+
+class Zygote(object):
+    """A process forked from the block's process before it has run anything.  On request it forks a child that
+    executes a history (a list of cases) from that untouched state and reports the observations: the only way to
+    ask "what does this case do alone / after exactly these cases" from inside a process that already has a past."""
+
+    def __init__(self):
+        req_r, req_w = os.pipe()
+        res_r, res_w = os.pipe()
+        pid = os.fork()
+        if pid == 0:
+            try:
+                keep = (req_r, res_w)
+                for fd in range(3, 1024):
+                    if fd not in keep:
+                        try:
+                            os.close(fd)
+                        except OSError:
+                            pass
+                self._serve(os.fdopen(req_r, 'rb'), res_w)
+            finally:
+                os._exit(0)
+        os.close(req_r)
+        os.close(res_w)
+        self.pid = pid
+        self.wf = os.fdopen(req_w, 'wb')
+        self.rf = os.fdopen(res_r, 'rb')
+        self.calls = 0
+
+    @staticmethod
+    def _serve(rf, res_w):
+        while True:
+            try:
+                mode, steps = pickle.load(rf)
+            except EOFError:
+                return
+            r, w = os.pipe()
+            g = os.fork()
+            if g == 0:
+                code = 0
+                try:
+                    os.close(r)
+                    try:
+                        out = ('ok', run_history(mode, steps))
+                    except BaseException:
+                        out = ('exc', traceback.format_exc())
+                    with os.fdopen(w, 'wb') as f:
+                        pickle.dump(out, f)
+                except BaseException:
+                    code = 3
+                finally:
+                    os._exit(code)
+            os.close(w)
+            data = b''
+            while True:
+                chunk = os.read(r, 1 << 16)
+                if not chunk:
+                    break
+                data += chunk
+            os.close(r)
+            os.waitpid(g, 0)
+            os.write(res_w, struct.pack('<Q', len(data)))
+            view = memoryview(data)
+            while view:
+                n = os.write(res_w, view)
+                view = view[n:]
+
+    def observe(self, mode, steps):
+        """List of observations of `steps` run from untouched state; raises RuntimeError on harness trouble."""
+        self.calls += 1
+        pickle.dump((mode, steps), self.wf)
+        self.wf.flush()
+        head = self.rf.read(8)
+        if len(head) < 8:
+            raise RuntimeError('history process went away')
+        n = struct.unpack('<Q', head)[0]
+        data = self.rf.read(n)
+        if not n or len(data) < n:
+            raise RuntimeError('history child died without a result')
+        st, out = pickle.loads(data)
+        if st != 'ok':
+            raise RuntimeError('history child failed: %s' % out)
+        return out
+
+    def close(self):
+        try:
+            self.wf.close()
+            self.rf.close()
+            os.waitpid(self.pid, 0)
+        except Exception:
+            pass
+
+
+def ddmin(items, fails, budget):
+    """Zeller's delta debugging: a sublist of `items` (order kept) for which fails() still holds; every reduction it
+    keeps was observed to fail, so the result is valid whenever the search stops (budget = max calls of fails)."""
+    n = 2
+    calls = [0]
+
+    def test(sub):
+        calls[0] += 1
+        return fails(sub)
+    while len(items) >= 2 and calls[0] < budget:
+        size = -(-len(items) // n)
+        chunks = [items[i:i + size] for i in range(0, len(items), size)]
+        reduced = False
+        for ch in chunks:
+            if calls[0] >= budget:
+                break
+            if test(ch):
+                items, n, reduced = ch, 2, True
+                break
+        if not reduced and len(chunks) > 2:
+            for i in range(len(chunks)):
+                if calls[0] >= budget:
+                    break
+                comp = [x for j, ch in enumerate(chunks) if j != i for x in ch]
+                if test(comp):
+                    items, n, reduced = comp, max(n - 1, 2), True
+                    break
+        if not reduced:
+            if n >= len(items):
+                break
+            n = min(len(items), n * 2)
+    if len(items) == 1 and calls[0] < budget and test([]):
+        items = []
+    return items
 
 
 # ---------------------------------------------------------------------------
@@ -453,38 +625,64 @@ def tree_blocks(tag, nleaf, depth, extra, target):
     return blocks
 
 
-def record(rep, case, obs, verdict, fids, exp, nontrivial, outcome_key):
-    rep.case(key=core.h64(repr(sorted(case.items()))), nontrivial=nontrivial, outcome=(outcome_key, obs))
-    if verdict == 'ok':
+class Block(object):
+    """What a block's process needs besides the Report: how cases are run, what it has run so far, and the
+    untouched twin process that can re-run any history."""
+
+    def __init__(self, mode='isolated'):
+        self.mode = mode
+        self.session = Session() if mode == 'session' else None
+        self.history = []
+        self.zygote = Zygote()
+        self.stop = False
+
+
+def judge_candidate(rep, blk, case, obs, exp):
+    """A case whose observation in this process is wrong.  Alone in an untouched process it is either wrong as well
+    (plain violation, replayable from the case) or right -- then the wrong answer is due to what this process did
+    before, which is a violation too: the replay case is the shortest history found that reproduces it."""
+    zy = blk.zygote
+
+    def bad(o):
+        return classify(case, o)[0] == 'violation'
+    alone = zy.observe(blk.mode, [case])[-1]
+    if bad(alone):
+        rep.violation(case, exp, alone, VIOLATION_TEXT)
         return
-    if verdict == 'known':
+    before = blk.history[:-1]
+
+    def fails(sub):
+        return bad(zy.observe(blk.mode, sub + [case])[-1])
+    blk.stop = True                     # this process is tainted; later failures in it would say nothing new
+    if not fails(before):
+        rep.error('case %s is wrong in its block process (%s), right alone (%s) and right when the block history of %d '
+                  'cases is re-run from untouched state: not reproducible' % (case, obs, alone, len(before)))
+        return
+    steps = ddmin(before, fails, budget=60) + [case]
+    if not (fails(steps[:-1]) and fails(steps[:-1])):
+        steps = before + [case]
+    rep.count('history_dependent')
+    rep.violation({'part': 'H', 'mode': blk.mode, 'steps': steps}, exp, obs, HISTORY_TEXT % (len(steps) - 1))
+
+
+def run_case(rep, blk, case, nontrivial=True):
+    """Run one case in this block's process, judge it, record it."""
+    tree, atoms, _ = case_test(case)
+    exp = predict(case, 0)
+    obs = run_step(blk.mode, case, blk.session)
+    blk.history.append(case)
+    truth = tuple(M.atom_value(a, 0, loopvar=0) for a in atoms)
+    rep.case(key=core.h64(repr(sorted(case.items()))), nontrivial=nontrivial,
+             outcome=((case['part'], skeleton(tree), truth, case.get('N'), case.get('body')), obs))
+    if obs == exp:
+        return obs, 'ok'
+    v, fids, exp = classify(case, obs)
+    if v == 'known':
         for f in fids:
             rep.known_finding(f, case, 'expected %s, observed %s' % (exp, obs))
         rep.count('known_' + ('raises' if obs.startswith('raises') else obs if obs == 'timeout' else 'wrong_value'))
     else:
-        rep.violation(case, exp, obs, 'branch / iteration count differs from the value of the expression tree')
-
-
-def run_case(rep, case, session=None, nontrivial=True):
-    """Run one case, judge it, record it."""
-    tree, atoms, _ = case_test(case)
-    exp = predict(case, 0)
-    if session is not None:
-        _, _, test = case_test(case)
-        obs = session.run(ite_body(test), limit_for(case))
-        if obs != exp:
-            v, fids, exp = classify(case, obs)
-            if v == 'violation':            # re-judge in isolation before believing the session
-                obs = observe_case(case, full_preamble=True)
-                rep.count('session_rejudged')
-    else:
-        obs = observe_case(case)
-    if obs == exp:
-        v, fids = 'ok', []
-    else:
-        v, fids, exp = classify(case, obs)
-    truth = tuple(M.atom_value(a, 0, loopvar=0) for a in atoms)
-    record(rep, case, obs, v, fids, exp, nontrivial, (case['part'], skeleton(tree), truth, case.get('N')))
+        judge_candidate(rep, blk, case, obs, exp)
     return obs, v
 
 
@@ -507,14 +705,25 @@ def _block_child(block):
     if _STOP is not None and _STOP.value >= STOP_AFTER:
         rep.count('blocks_skipped_after_violations')
         return rep.close_block()
-    _run_block(block, rep)
+    blk = Block('session' if block[0] == 'T' and block[6] == 'session' else 'isolated')
+    try:
+        _run_block(block, rep, blk)
+    finally:
+        blk.zygote.close()
     if _STOP is not None and rep.nviolations:
         with _STOP.get_lock():
             _STOP.value += rep.nviolations
     return rep.close_block()
 
 
-def _run_block(block, rep):
+def cut(rep, blk):
+    if blk.stop or rep.nviolations >= CUT:
+        rep.count('block_cut_short_after_violations')
+        return True
+    return False
+
+
+def _run_block(block, rep, blk):
     tag = block[0]
     if tag == 'A':
         _, lo, hi, seed = block
@@ -525,11 +734,13 @@ def _run_block(block, rep):
                 tree = ('n', ('a', 0)) if neg else ('a', 0)
                 case = {'part': 'A', 'tree': tree, 'atoms': [a], 'upper': (i + seed) & 1 if neg else 0,
                         'style': (i + neg + seed) % 3}
-                obs, v = run_case(rep, case)
+                obs, v = run_case(rep, blk, case)
                 rep.count('atom_' + a[0])
                 rep.count('atom_true' if M.atom_value(a) else 'atom_false')
                 if i % 600 == 1 and neg:
                     rep.sample({'input': case_source(case), 'observed': obs})
+            if cut(rep, blk):
+                return
     elif tag == 'P':
         _, lo, hi, seed = block
         E = M.levels(2, 2)[0]
@@ -540,8 +751,10 @@ def _run_block(block, rep):
             for upper in range(1 << nops):
                 for style in (0, 1, 2):
                     case = {'part': 'P', 'tree': tree, 'atoms': atoms, 'upper': upper, 'style': style}
-                    run_case(rep, case, nontrivial=tree[0] != 'a')
+                    run_case(rep, blk, case, nontrivial=tree[0] != 'a')
                     rep.count('spelling_cases')
+            if cut(rep, blk):
+                return
     elif tag == 'N':
         _, lo, hi, seed = block
         E = M.levels(2, 1)[0]
@@ -553,11 +766,12 @@ def _run_block(block, rep):
                 iatoms = pick_atoms(2, iids, i + j + 1, seed)
                 case = {'part': 'N', 'tree': tree, 'atoms': atoms, 'inner_tree': itree, 'inner_atoms': iatoms,
                         'upper': 0, 'style': 0}
-                run_case(rep, case)
+                run_case(rep, blk, case)
                 rep.count('nested_cases')
+                if cut(rep, blk):
+                    return
     elif tag == 'T':
         _, nleaf, depth, section, lo, hi, mode, min_depth, seed = block
-        session = Session() if mode == 'session' else None
         for idx, t in iter_section(nleaf, depth, section, lo, hi):
             if min_depth and M.depth_of(t) < min_depth:
                 continue                # enumerated by the isolated blocks of the same leaf classes
@@ -566,10 +780,9 @@ def _run_block(block, rep):
             nops = M.n_operators(M.tokens(tree))
             upper = (core.h64((idx, seed)) >> 8) & ((1 << nops) - 1) if (idx + seed) % 3 else 0
             case = {'part': 'T', 'tree': tree, 'atoms': atoms, 'upper': upper, 'style': (idx + seed) % 3}
-            obs, v = run_case(rep, case, session=session, nontrivial=t[0] != 'a')
-            if rep.nviolations >= CUT:
-                rep.count('block_cut_short_after_violations')
-                break
+            obs, v = run_case(rep, blk, case, nontrivial=t[0] != 'a')
+            if cut(rep, blk):
+                return
             for f in M.features(t):
                 rep.count('shape_' + f)
             rep.count('depth_%d' % M.depth_of(t))
@@ -577,36 +790,52 @@ def _run_block(block, rep):
             if idx % 20011 == 7:
                 rep.sample({'input': case_source(case), 'observed': obs})
     elif tag == 'W':
-        _, nleaf, depth, section, lo, hi, N, seed = block
+        _, nleaf, depth, section, lo, hi, N, bodies, min_depth, seed = block
         for idx, t in iter_section(nleaf, depth, section, lo, hi):
+            if min_depth and M.depth_of(t) < min_depth:
+                continue
             tree, ids = positional(t)
             menu = loop_leaves(N, nleaf, idx, seed)
             atoms = [menu[c] for c in ids]
             nops = M.n_operators(M.tokens(tree))
-            case = {'part': 'W', 'tree': tree, 'atoms': atoms, 'N': N,
-                    'upper': (core.h64((idx, N, seed)) >> 8) & ((1 << nops) - 1) if (idx + N + seed) % 2 else 0,
-                    'style': (idx + N + seed) % 3}
-            exp = predict(case, 0)
-            if exp == 'timeout':
-                rep.count('loop_excluded_more_than_6_iterations')
-                continue
-            obs, v = run_case(rep, case)
-            if rep.nviolations >= CUT:
-                rep.count('block_cut_short_after_violations')
-                break
-            rep.count('loop_iterations_%s' % exp[3:].count('wqb'))
-            for f in M.features(t):
-                rep.count('loopshape_' + f)
-            if idx % 4001 == 5:
-                rep.sample({'input': case_source(case), 'observed': obs})
+            for kind in bodies:
+                case = {'part': 'B' if kind else 'W', 'tree': tree, 'atoms': atoms, 'N': N,
+                        'upper': (core.h64((idx, N, seed)) >> 8) & ((1 << nops) - 1) if (idx + N + seed) % 2 else 0,
+                        'style': (idx + N + seed) % 3}
+                if kind:
+                    case['body'] = kind
+                exp = predict(case, 0)
+                if exp == 'timeout':
+                    rep.count('loop_excluded_more_than_6_iterations')
+                    continue
+                obs, v = run_case(rep, blk, case)
+                if cut(rep, blk):
+                    return
+                rep.count('loop_iterations_%s' % exp.rsplit('wqz', 1)[1])
+                rep.count('loop_body_%d' % kind)
+                if kind and 'g' in skeleton_kinds(tree):
+                    rep.count('grouped_test_with_nested_body')
+                for f in M.features(t):
+                    rep.count('loopshape_' + f)
+                if idx % 4001 == 5 or (kind and idx % 997 == 3):
+                    rep.sample({'input': case_source(case), 'observed': obs})
     else:
         raise ValueError(block)
+
+
+def skeleton_kinds(tree):
+    k = tree[0]
+    if k == 'a':
+        return 'a'
+    if k in 'ng':
+        return k + skeleton_kinds(tree[1])
+    return 'b' + skeleton_kinds(tree[2]) + skeleton_kinds(tree[3])
 
 
 def run(tier, seed, rep):
     state.pristine()
     quick = tier == 'quick'
-    M.levels(4, 2), M.levels(2, 3 if not quick else 2), M.levels(6, 1), M.levels(3, 2)    # built once, inherited by fork
+    M.levels(4, 2), M.levels(2, 3 if not quick else 2), M.levels(6, 1), M.levels(3, 2), M.levels(3, 1)    # built once, inherited by fork
     menus()
     blocks = []
     natoms = len(M.all_atoms()[0])
@@ -632,14 +861,17 @@ def run(tier, seed, rep):
     else:
         blocks += tree_blocks('T', 2, 4, ('session', 0, seed), 6000)
         bounds['trees_session'] = {'leaf_classes': 2, 'depth': '<= 4', 'trees': M.count(2, 4)[0]}
-    # part W
-    wcfg = [(6, 2)] if quick else [(6, 2), (3, 3)]
+    # part W (plain body) and part B (bodies with a conditional / a loop of their own)
+    nested = (1, 2, 3, 4)
+    wcfg = [(6, 2, (0,), 0), (6, 1, nested, 0), (3, 2, nested, 2)] if quick else \
+        [(6, 2, (0,), 0), (3, 3, (0,), 0), (6, 2, nested, 0)]
     bounds['whiledo'] = []
-    for nleaf, depth in wcfg:
+    for nleaf, depth, bodies, min_depth in wcfg:
         for N in range(0, 7):
-            blocks += tree_blocks('W', nleaf, depth, (N, seed), 400)
-        bounds['whiledo'].append({'leaf_menu': nleaf, 'depth': depth, 'trees': M.count(nleaf, depth)[0],
-                                  'bound_N': '0..6', 'max_iterations': M.LOOP_CAP})
+            blocks += tree_blocks('W', nleaf, depth, (N, bodies, min_depth, seed), 400 // len(bodies))
+        trees = M.count(nleaf, depth)[0] - (M.count(nleaf, min_depth - 1)[0] if min_depth else 0)
+        bounds['whiledo'].append({'leaf_menu': nleaf, 'depth': ('= %d' if min_depth else '<= %d') % depth, 'trees': trees,
+                                  'bodies': list(bodies), 'bound_N': '0..6', 'max_iterations': M.LOOP_CAP})
     blocks = core.rotate(blocks, seed)
     global _STOP
     import multiprocessing
@@ -650,4 +882,5 @@ def run(tier, seed, rep):
     return {'exhaustive': complete, 'bounds': bounds, 'blocks': len(blocks),
             'floors': {'evaluations': 150000 if quick else 3500000, 'then_taken': 20000, 'else_taken': 20000,
                        'shape_not_after_operator': 10000, 'shape_redundant_group': 10000,
-                       'loop_iterations_6': 50, 'loop_iterations_0': 50, 'spelling_cases': 2000}}
+                       'loop_iterations_6': 50, 'loop_iterations_0': 50, 'spelling_cases': 2000,
+                       'grouped_test_with_nested_body': 2000}}
